@@ -356,6 +356,14 @@ class Workspace:
         raise Inconclusive("fix-point compilation did not converge in %d rounds (%s)" % (max_rounds, self.label))
 
     def attach_records(self, dump, only=None):
+        # log of the foreign attribute macro: entries of files rebuilt in this round replace older ones
+        vl = []
+        for f in sorted(Path(dump).glob("vattr-*.jsonl")):
+            for line in f.read_text().split("\n"):
+                if line.strip():
+                    vl.append(json.loads(line))
+        files = {v["file"] for v in vl}
+        self.vattr_log = [v for v in getattr(self, "vattr_log", []) if v["file"] not in files] + vl
         recs = load_dump(dump)
         by_file = self.case_by_file()
         sel = {c.id for c in only} if only is not None else None
